@@ -1,8 +1,9 @@
 import VModel.Sentence
+import VProofs.Lemmas.Inv
 /-!
 # C05 — Sentence parsers are total and leave a consistent sentence
 
-Property theorems only (helper lemmas live in `VProofs/Lemmas/Inv*.lean`).
+Property theorems only (helper lemmas live in `VProofs/Lemmas/Inv.lean` and `VProofs/Lemmas/ParserTotal.lean`).
 -/
 namespace V
 
@@ -14,6 +15,10 @@ structure Inv (s : Sentence) : Prop where
   bounds_len : s.bounds.length + 1 = s.text.length
   tags_len : s.tags.length = s.text.length * s.nTags
   scores_ok : s.scores = [] ∨ s.padding + s.bounds.length ≤ s.scores.length
+
+/-- `Inv` and the conjunction `InvC` used by the helper lemmas are the same thing -/
+theorem Inv.toC {s : Sentence} (h : Inv s) : InvC s := ⟨h.1, h.2, h.3, h.4, h.5⟩
+theorem Inv.ofC {s : Sentence} (h : InvC s) : Inv s := ⟨h.1, h.2.1, h.2.2.1, h.2.2.2.1, h.2.2.2.2⟩
 
 /-- the operations C05 quantifies over -/
 inductive SOp
@@ -43,18 +48,23 @@ def runOps (s : Sentence) : List SOp → Res Sentence
 theorem C05_total (x : List Char) (s : Sentence) :
     (Sentence.fromRaw x).Safe ∧ (Sentence.fromTokenized x).Safe ∧ (Sentence.fromPartial x).Safe ∧
     (s.updateRaw x).Safe ∧ (s.updateTokenized x).Safe ∧ (s.updatePartial x).Safe := by
-  sorry
+  exact ⟨(paired_raw x).ctor_safe, (paired_tokenized x).ctor_safe, (paired_partial x).ctor_safe,
+    (paired_raw x).upd_safe s, (paired_tokenized x).upd_safe s, (paired_partial x).upd_safe s⟩
 
 /-- the in-place updates always return (they report failure through the flag, never `err`/`panic` at this level) -/
 theorem C05_update_returns (s : Sentence) (op : SOp) : ∃ s' ok, op.apply s = .ok (s', ok) := by
-  sorry
+  cases op with
+  | updateRaw x => exact (paired_raw x).upd_returns s
+  | updateTokenized x => exact (paired_tokenized x).upd_returns s
+  | updatePartial x => exact (paired_partial x).upd_returns s
+  | resetTags k => exact ⟨_, _, rfl⟩
 
 /-- after a failed update the sentence is the default single-space sentence -/
 theorem C05_err_default (s s' : Sentence) (x : List Char) :
     (s.updateRaw x = .ok (s', false) → s' = Sentence.default) ∧
     (s.updateTokenized x = .ok (s', false) → s' = Sentence.default) ∧
     (s.updatePartial x = .ok (s', false) → s' = Sentence.default) := by
-  sorry
+  exact ⟨(paired_raw x).err_default, (paired_tokenized x).err_default, (paired_partial x).err_default⟩
 
 /-- after a successful update the sentence is exactly the one the corresponding constructor builds from the same
 input, independently of what it held before (every field: text, types, boundaries, tags, tag count, no scores) -/
@@ -62,30 +72,53 @@ theorem C05_ok_describes (s s' : Sentence) (x : List Char) :
     (s.updateRaw x = .ok (s', true) → Sentence.fromRaw x = .ok s') ∧
     (s.updateTokenized x = .ok (s', true) → Sentence.fromTokenized x = .ok s') ∧
     (s.updatePartial x = .ok (s', true) → Sentence.fromPartial x = .ok s') := by
-  sorry
+  exact ⟨(paired_raw x).ok_describes, (paired_tokenized x).ok_describes, (paired_partial x).ok_describes⟩
 
 /-- what a constructor returns is consistent, and has no scores -/
 theorem C05_ctor_inv (x : List Char) (s : Sentence) :
     (Sentence.fromRaw x = .ok s ∨ Sentence.fromTokenized x = .ok s ∨ Sentence.fromPartial x = .ok s) →
     Inv s ∧ s.scores = [] := by
-  sorry
+  intro h
+  have : InvC s ∧ s.scores = [] := by
+    rcases h with h | h | h
+    · exact (paired_raw x).ctor_inv h
+    · exact (paired_tokenized x).ctor_inv h
+    · exact (paired_partial x).ctor_inv h
+  exact ⟨Inv.ofC this.1, this.2⟩
 
 theorem C05_default_inv : Inv Sentence.default := by
-  sorry
+  exact Inv.ofC invC_default
 
 /-- every operation preserves consistency … -/
 theorem C05_step_inv (s s' : Sentence) (op : SOp) (ok : Bool) (h : Inv s) (hs : op.apply s = .ok (s', ok)) : Inv s' := by
-  sorry
+  apply Inv.ofC
+  cases op with
+  | updateRaw x => exact (paired_raw x).step_inv hs
+  | updateTokenized x => exact (paired_tokenized x).step_inv hs
+  | updatePartial x => exact (paired_partial x).step_inv hs
+  | resetTags k =>
+    injection hs with hs
+    injection hs with hs _
+    rw [← hs]; exact invC_resetTags s k h.toC
+
+/-- the same from any consistent starting sentence -/
+theorem runOps_inv (ops : List SOp) (s : Sentence) (h : Inv s) : ∃ s', runOps s ops = .ok s' ∧ Inv s' := by
+  induction ops generalizing s with
+  | nil => exact ⟨s, rfl, h⟩
+  | cons op ops ih =>
+    obtain ⟨s1, ok, h1⟩ := C05_update_returns s op
+    obtain ⟨s2, h2, h3⟩ := ih s1 (C05_step_inv s s1 op ok h h1)
+    exact ⟨s2, by simp only [runOps, h1, h2], h3⟩
 
 /-- … hence every history of calls on one sentence object returns a consistent sentence and never panics -/
 theorem C05_history_inv (ops : List SOp) : ∃ s, runOps Sentence.default ops = .ok s ∧ Inv s := by
-  sorry
+  exact runOps_inv ops _ C05_default_inv
 
 /-- on a consistent sentence every accessor, writer and iterator works -/
 theorem C05_accessors (s : Sentence) (h : Inv s) :
     s.writeTokenized.Safe ∧ s.writePartial.Safe ∧ s.boundaryScores.Safe ∧
     ∀ se ∈ iterTokens s.bounds, (s.substring se.1 se.2).Safe ∧ (s.tokenTags se.2).Safe := by
-  sorry
+  exact ⟨writeTokenized_safe s h.toC, writePartial_safe s h.toC, boundaryScores_safe s h.toC, token_safe s h.toC⟩
 
 /-! ## non-vacuity -/
 
